@@ -7,6 +7,7 @@ From Curies.proofs Require Import PModelS.
 From Coq Require Import Permutation.
 From Curies.model Require Import Optimize.
 From Curies.proofs Require Import OptimizeFacts.
+From Curies.proofs Require Import OwsFacts.
 
 (* what the graph yields for a bound URI u over a configured predicate: the valid renderings of u's record *)
 Theorem C18_answers : forall inv d rs c, mk_conv true d rs = Val c -> forall u, equivalents inv c u = spec_equivalents inv rs u.
@@ -85,3 +86,14 @@ Example C18_opt_nonvacuous :
   let after_where := ANode join_name (FNodeF k_p1 bgp (FNodeF k_p2 vals FNil)) in
   values_first after_where = false /\ opt after_where = ANode join_name (FNodeF k_p1 vals (FNodeF k_p2 bgp FNil)).
 Proof. vm_compute. auto. Qed.
+
+(* Optional white space: inserting spaces or tabs next to any ',' ';' '=' of an Accept header, or at its beginning or end, any
+   number of times, never changes the negotiated media type (nor whether the header is rejected) *)
+Theorem C18_ows : forall h h', ows_equiv h h' -> negotiate (Some h') = negotiate (Some h).
+Proof. exact negotiate_ows. Qed.
+Print Assumptions C18_ows.
+(* ... while white space inside a q-value is not optional white space and does matter: "text/csv;q=0.5" vs "text/csv;q=0. 5" *)
+Theorem C18_ows_inside_value_matters :
+  negotiate (Some [116;101;120;116;47;99;115;118;59;113;61;48;46;53]%N) = Some ct_csv /\
+  negotiate (Some [116;101;120;116;47;99;115;118;59;113;61;48;46;32;53]%N) = None.
+Proof. exact ows_inside_value_matters. Qed.
